@@ -70,6 +70,9 @@ HostnameProofs.vos HostnameProofs.vok HostnameProofs.required_vos: HostnameProof
 HostnameInv.vo HostnameInv.glob HostnameInv.v.beautified HostnameInv.required_vo: HostnameInv.v Base.vo Fields.vo SrcFacts.vo Msg.vo SrcDecisions.vo Sim.vo Prober.vo Hostname.vo HostnameProofs.vo
 HostnameInv.vio: HostnameInv.v Base.vio Fields.vio SrcFacts.vio Msg.vio SrcDecisions.vio Sim.vio Prober.vio Hostname.vio HostnameProofs.vio
 HostnameInv.vos HostnameInv.vok HostnameInv.required_vos: HostnameInv.v Base.vos Fields.vos SrcFacts.vos Msg.vos SrcDecisions.vos Sim.vos Prober.vos Hostname.vos HostnameProofs.vos
+HostNet.vo HostNet.glob HostNet.v.beautified HostNet.required_vo: HostNet.v Base.vo Fields.vo SrcFacts.vo Msg.vo SrcDecisions.vo Sim.vo Prober.vo Hostname.vo HostnameProofs.vo
+HostNet.vio: HostNet.v Base.vio Fields.vio SrcFacts.vio Msg.vio SrcDecisions.vio Sim.vio Prober.vio Hostname.vio HostnameProofs.vio
+HostNet.vos HostNet.vok HostNet.required_vos: HostNet.v Base.vos Fields.vos SrcFacts.vos Msg.vos SrcDecisions.vos Sim.vos Prober.vos Hostname.vos HostnameProofs.vos
 Resolver.vo Resolver.glob Resolver.v.beautified Resolver.required_vo: Resolver.v Base.vo Fields.vo SrcFacts.vo Msg.vo SrcDecisions.vo Cache.vo CacheSpec.vo Sim.vo Prober.vo
 Resolver.vio: Resolver.v Base.vio Fields.vio SrcFacts.vio Msg.vio SrcDecisions.vio Cache.vio CacheSpec.vio Sim.vio Prober.vio
 Resolver.vos Resolver.vok Resolver.required_vos: Resolver.v Base.vos Fields.vos SrcFacts.vos Msg.vos SrcDecisions.vos Cache.vos CacheSpec.vos Sim.vos Prober.vos
@@ -142,9 +145,9 @@ Properties_C03.vos Properties_C03.vok Properties_C03.required_vos: Properties_C0
 Properties_C07.vo Properties_C07.glob Properties_C07.v.beautified Properties_C07.required_vo: Properties_C07.v Base.vo Fields.vo SrcFacts.vo Msg.vo SrcDecisions.vo Sim.vo Prober.vo ProberProofs.vo
 Properties_C07.vio: Properties_C07.v Base.vio Fields.vio SrcFacts.vio Msg.vio SrcDecisions.vio Sim.vio Prober.vio ProberProofs.vio
 Properties_C07.vos Properties_C07.vok Properties_C07.required_vos: Properties_C07.v Base.vos Fields.vos SrcFacts.vos Msg.vos SrcDecisions.vos Sim.vos Prober.vos ProberProofs.vos
-Properties_C09.vo Properties_C09.glob Properties_C09.v.beautified Properties_C09.required_vo: Properties_C09.v Base.vo Fields.vo SrcFacts.vo Msg.vo SrcDecisions.vo Sim.vo Prober.vo Hostname.vo HostnameProofs.vo Provider.vo ProviderSpec.vo ProviderProofs.vo
-Properties_C09.vio: Properties_C09.v Base.vio Fields.vio SrcFacts.vio Msg.vio SrcDecisions.vio Sim.vio Prober.vio Hostname.vio HostnameProofs.vio Provider.vio ProviderSpec.vio ProviderProofs.vio
-Properties_C09.vos Properties_C09.vok Properties_C09.required_vos: Properties_C09.v Base.vos Fields.vos SrcFacts.vos Msg.vos SrcDecisions.vos Sim.vos Prober.vos Hostname.vos HostnameProofs.vos Provider.vos ProviderSpec.vos ProviderProofs.vos
+Properties_C09.vo Properties_C09.glob Properties_C09.v.beautified Properties_C09.required_vo: Properties_C09.v Base.vo Fields.vo SrcFacts.vo Msg.vo SrcDecisions.vo Sim.vo Prober.vo Hostname.vo HostnameProofs.vo HostNet.vo Provider.vo ProviderSpec.vo ProviderProofs.vo
+Properties_C09.vio: Properties_C09.v Base.vio Fields.vio SrcFacts.vio Msg.vio SrcDecisions.vio Sim.vio Prober.vio Hostname.vio HostnameProofs.vio HostNet.vio Provider.vio ProviderSpec.vio ProviderProofs.vio
+Properties_C09.vos Properties_C09.vok Properties_C09.required_vos: Properties_C09.v Base.vos Fields.vos SrcFacts.vos Msg.vos SrcDecisions.vos Sim.vos Prober.vos Hostname.vos HostnameProofs.vos HostNet.vos Provider.vos ProviderSpec.vos ProviderProofs.vos
 Properties_C04.vo Properties_C04.glob Properties_C04.v.beautified Properties_C04.required_vo: Properties_C04.v Base.vo Fields.vo SrcFacts.vo Msg.vo SrcDecisions.vo Cache.vo CacheSpec.vo Sim.vo Prober.vo Hostname.vo Provider.vo ProviderSpec.vo ProviderListener.vo Browser.vo BrowserProofs.vo NetProofs.vo
 Properties_C04.vio: Properties_C04.v Base.vio Fields.vio SrcFacts.vio Msg.vio SrcDecisions.vio Cache.vio CacheSpec.vio Sim.vio Prober.vio Hostname.vio Provider.vio ProviderSpec.vio ProviderListener.vio Browser.vio BrowserProofs.vio NetProofs.vio
 Properties_C04.vos Properties_C04.vok Properties_C04.required_vos: Properties_C04.v Base.vos Fields.vos SrcFacts.vos Msg.vos SrcDecisions.vos Cache.vos CacheSpec.vos Sim.vos Prober.vos Hostname.vos Provider.vos ProviderSpec.vos ProviderListener.vos Browser.vos BrowserProofs.vos NetProofs.vos
